@@ -3,7 +3,7 @@
 cd "$(dirname "$0")/.."
 tier="${2:-quick}"
 for d in "$1"/C*-*/; do
-  id=$(basename "$d"); prop=$(python3 -c "import json;print(json.load(open('$d/meta.json'))['property'])")
+  id=$(basename "$d"); prop=$(python3 -c "import json;print(json.load(open('$d/meta.json'))['property'][:3])")
   extra=$(python3 -c "import json;print(','.join(json.load(open('$d/meta.json')).get('also_checks',[])))" 2>/dev/null)
   props="$prop"; [ -n "$extra" ] && props="$prop,$extra"
   if [ ! -f harness/cmd/vcheck/main.go ]; then echo no harness; exit 2; fi
